@@ -57,7 +57,7 @@ class Base(GenericAdapter):
         if x is None:
             return 0
         for c, i in self._tab:
-            if type(c) is type(x) and c == x:
+            if c is x or (type(c) is type(x) and c == x):
                 return i
         return -999
 
